@@ -9,6 +9,7 @@ import Resonate.Proofs.Wf
 import Resonate.Model.Json
 import Resonate.Model.Poll
 import Resonate.Model.Resolve
+import Resonate.Properties.C13
 open Lean
 namespace Resonate
 
@@ -96,6 +97,10 @@ def handleLine (st : DriverState) (line : String) : DriverState × Json :=
           | .ok rss => Json.mkObj [("err", Json.null), ("results", toJson (rss.map fun rs => rs.map resToJson)), ("db", toJson db')]
           | .error e => Json.mkObj [("err", storeErrToString e), ("results", Json.arr #[]), ("db", toJson db')]
         ({ db := db' }, out)
+    | .ok "valid_req" =>
+      match (do reqFromJson (← j.getObjVal? "req") : Except String Req) with
+      | .error e => (st, Json.mkObj [("fatal", s!"req: {e}")])
+      | .ok r => (st, Json.mkObj [("valid", decide (C13.ValidReq r))])
     | .ok "route_tag" =>
       let tag : Option (List Char) := (j.getObjValAs? String "tag").toOption.map String.toList
       match Resolve.routeTag tag with
